@@ -165,7 +165,7 @@ def execute(ctx, types, queries, tag="cases"):
 def run(ctx):
     kfs = vlib.known_findings(ctx.pid)
     classes = enabled_classes(kfs)
-    n_types = int(os.environ.get("VERIF_C19_TYPES", "0") or 0) or (260 if ctx.quick else 2000)
+    n_types = int(os.environ.get("VERIF_C19_TYPES", "0") or 0) or (800 if ctx.quick else 6000)
     types = G.gen_types(ctx.rng, n_types, classes)
     queries = [(t["tid"], v) for t in types for v in G.type_values(types, t["tid"], ctx.rng)]
     cov = ctx.cov
